@@ -249,14 +249,15 @@ fn receive_acks(
     mut entity_buffer: ResMut<EntityBuffer>,
 ) {
     for (client, mut message) in server.receive(ClientChannel::MutationAcks) {
+        let Ok(mut ticks) = clients.get_mut(client) else {
+            // Messages from disconnected clients are removed on disconnect,
+            // so this is a connected client that hasn't been authorized yet.
+            debug!("ignoring mutate acks from non-authorized client `{client}`");
+            continue;
+        };
         while message.has_remaining() {
             match postcard_utils::from_buf(&mut message) {
                 Ok(mutate_index) => {
-                    let mut ticks = clients.get_mut(client).unwrap_or_else(|_| {
-                        panic!(
-                            "messages from client `{client}` should have been removed on disconnect"
-                        )
-                    });
                     ticks.ack_mutate_message(
                         client,
                         &mut entity_buffer,
